@@ -361,12 +361,17 @@ class C07Oracle(Oracle):
             payload, desc, expect, stay = flood
             name = "flood"
         self.kinds[name] = self.kinds.get(name, 0) + 1
-        pkt = self.forger.build(self.peer, "1rtt", self.acks() + payload)
+        src = self.peer.addr
+        if flood is not None and getattr(self, "flood_src", None):
+            src, self.flood_src = self.flood_src, None
+            pkt = self.forger.build(self.peer, "1rtt", payload)  # probing frames only
+        else:
+            pkt = self.forger.build(self.peer, "1rtt", self.acks() + payload)
         if pkt is None:
             self.total = self.step_n
             return
         before_state = t.conn._state.name
-        d = self.forger.inject(t, pkt, src=self.peer.addr, tag="forged-c07")
+        d = self.forger.inject(t, pkt, src=src, tag="forged-c07")
         self.cur = (desc, expect, stay)
         self.closed_now = None
         try:
@@ -388,8 +393,11 @@ class C07Oracle(Oracle):
             return wf.encode_crypto(off, bytes(10)), "CRYPTO(off=%d)" % off, expect, not expect
         if k == 1:
             n = 1 + self.ch.choose(60)
+            # half of the floods are probing-only packets from a SECOND source address (no migration:
+            # the frames are probing frames), whose path queue must be bounded just the same
+            self.flood_src = ("10.0.0.77", 7000 + self.ch.choose(2)) if self.ch.choose(2) else None
             return b"".join(wf.encode_path_challenge(bytes([i, n]) + bytes(6)) for i in range(n)), \
-                "PATH_CHALLENGE(x%d)" % n, set(), True
+                "PATH_CHALLENGE(x%d%s)" % (n, "@other-address" if self.flood_src else ""), set(), True
         if k == 2:
             seq = self.flood_seq = getattr(self, "flood_seq", 10) + 1
             rpt = seq if self.ch.choose(2) else max(seq - self.ch.choose(4), 0)
